@@ -109,7 +109,7 @@ def s1(ctx, rep):
     enc_base = P.cls("HyperparameterRange")
     concrete = [c for c in P.all_subclasses(domain) if c.module is domain.module]
     # loop over internal keys
-    loops = [st for st in f.node.body if isinstance(st, ast.For)]
+    loops = [st for st in walk_shallow(f.node) if isinstance(st, ast.For)]
     if len(loops) != 1:
         raise AnchorError("HyperparameterRangesImpl.__init__: dispatch loop not found")
     loop = loops[0]
